@@ -365,9 +365,20 @@ func checkVerbatim(c *Ctx, pk *packages.Package, fd *ast.FuncDecl) {
 				return true
 			})
 		})
+		// a boolean local stands for the test it was assigned from (asJSON := format == "json")
+		norm := func(gs []goan.Lit) []goan.Lit {
+			out := make([]goan.Lit, len(gs))
+			for i, g := range gs {
+				out[i] = g
+				if g.Tag == nil && !g.NonEmpty {
+					out[i].E = goan.ResolveLocal(info, fd.Body, g.E)
+				}
+			}
+			return out
+		}
 		for i, lg := range lnGuards {
 			for _, yg := range yamlGuards {
-				if !guardsExclude(info, lg, yg) {
+				if !guardsExclude(info, norm(lg), norm(yg)) {
 					bad = append(bad, "printed with Println at "+c.posOf(pk, lnPos[i])+" although it may hold the YAML rendering (which ends with its own line feed)")
 				}
 			}
